@@ -28,8 +28,9 @@ PACKET_W = {"sse2": 2, "avx": 4, "avx512": 8}
 
 # ------------------------------------------------------------------ generator
 class Gen:
-    def __init__(self, rng, pausable=False):
+    def __init__(self, rng, pausable=False, array_forms=False):
         self.rng = rng
+        self.array_forms = array_forms   # also emit the free functions on arrays of Active (set_values) and preallocate_* calls
         self.live = {}      # handle -> value
         self.nxt = 0
         self.ops = []
@@ -84,6 +85,41 @@ class Gen:
         r = self.rng
         live = list(self.live)
         x = r.random()
+        if self.array_forms and len(live) >= 2 and r.random() < 0.07:
+            if r.random() < 0.5:
+                # set_values(Active* a, n, data): n values at once, nothing is recorded (n = 0 allowed, repeats allowed: the last wins)
+                hs = [r.choice(live) for _ in range(r.choice([0, 1, 2, 2, 3, 4]))]
+                vs = [r.randint(-4, 4) for _ in hs]
+                for h, v in zip(hs, vs):
+                    self.live[h] = v
+                self.emit(("setvn " + " ".join("%d %d" % hv for hv in zip(hs, vs))).rstrip())
+            else:
+                self.emit("prealloc %s %d%s" % (r.choice("so"), r.choice([0, 1, 3, 8, 70, 300]), r.choice(["", " m", " f"])))
+            return
+        if self.array_forms and len(live) >= 2 and r.random() < 0.10:
+            # the target is an ActiveReference (an element of an active array): reference = reference, reference = passive,
+            # reference += -= *= passive
+            k = r.choice(live)
+            f = r.choice(["rasg", "rasg", "rsetp", "rcadd", "rcsub", "rcmul", "rcmul"])
+            if f == "rasg":
+                i = r.choice(live)
+                self.live[k] = self.live[i]
+                self.emit("rasg %d %d" % (k, i))
+            elif f == "rsetp":
+                v = r.randint(-4, 4)
+                self.live[k] = v
+                self.emit("rsetp %d %d" % (k, v))
+            else:
+                y = r.randint(-3, 3)
+                v = self.live[k]
+                nv = v + y if f == "rcadd" else v - y if f == "rcsub" else v * y
+                if abs(nv) > VAL_BOUND:
+                    return
+                self.live[k] = nv
+                self.emit("%s %d c%d" % (f, k, y))
+            if not self.paused and f in ("rasg", "rsetp", "rcmul"):
+                self.last_lhs = k
+            return
         if x < 0.08 or len(live) < 2:
             self.new()
         elif x < 0.12 and len(live) > 3:
@@ -171,6 +207,33 @@ def pick_lists(rng, gen, n, m, distinct=False):
         n = min(n, len(live)); m = min(m, len(live))
         return rng.sample(live, n), rng.sample(live, m)
     return [rng.choice(live) for _ in range(n)], [rng.choice(live) for _ in range(m)]
+
+
+def emit_lists(g, rng, indep, dep, rate=0.5):
+    """declare the independent and the dependent variables: each list is cut into runs; a run of one goes through the scalar form
+    (`indep k`), the others through the pointer-and-count form Stack::independent(const A* x, n) / dependent(const A* x, n)
+    (`indepn k1 .. kn`, n >= 1); an empty call (n = 0) is inserted now and then"""
+    for name, lst in (("indep", indep), ("dep", dep)):
+        i = 0
+        while i < len(lst):
+            if rng.random() >= rate:
+                g.emit("%s %d" % (name, lst[i])); i += 1
+            else:
+                n = rng.randint(1, len(lst) - i)
+                g.emit("%sn %s" % (name, " ".join(map(str, lst[i:i + n])))); i += n
+            if rng.random() < 0.06:
+                g.emit("%sn" % name)
+
+
+def emit_seeds(g, rng, seeds, rate=0.4):
+    """seeds = [(handle, value)]: one set_gradient call each, or the free function set_gradients(Active* a, n, data) for a run"""
+    i = 0
+    while i < len(seeds):
+        if rng.random() >= rate:
+            g.emit("seed %d %d" % seeds[i]); i += 1
+        else:
+            n = rng.randint(1, len(seeds) - i)
+            g.emit("setgn " + " ".join("%d %d" % hv for hv in seeds[i:i + n])); i += n
 
 
 # ------------------------------------------------------------------ oracle helpers
@@ -262,6 +325,9 @@ def run_pair(exe, text, env=None):
 UNDEF = "undefined"   # gradient of a default-constructed, never assigned active scalar (documented as undefined)
 
 
+R_ALIAS = {"rasg": "asg", "rsetp": "setp", "rcadd": "cadd", "rcsub": "csub", "rcmul": "cmul"}
+
+
 def _dadd(a, b, sb=1):
     if UNDEF in a or UNDEF in b:
         return {UNDEF: 1}
@@ -308,6 +374,9 @@ def dual_eval(ops, impl_lines):
     for o, l in zip(ops, impl_lines):
         w = o.split()
         c = w[0]
+        if c in R_ALIAS:      # ActiveReference targets mean what the same statements on an Active mean
+            w = [R_ALIAS[c], w[1], ("v" + w[2]) if c == "rasg" else w[2]]
+            c = w[0]
         records = (c in ("new", "newc", "setp", "asg", "cmul", "adep", "adepv")
                    or (c in ("cadd", "csub") and len(w) > 2 and w[2][0] == "v"))
         if records:
@@ -327,6 +396,10 @@ def dual_eval(ops, impl_lines):
             env.pop(int(w[1]), None)
         elif c == "setp":
             env[int(w[1])] = (int(w[2]), {})
+        elif c == "setvn":
+            # set_values: the value changes, nothing is recorded: the derivative information is what it was
+            for j in range(1, len(w) - 1, 2):
+                env[int(w[j])] = (int(w[j + 1]), env[int(w[j])][1])
         elif c == "nr":
             inputs = sorted(h for h in env if UNDEF not in env[h][1])
             env = {h: (env[h][0], {h: 1} if UNDEF not in env[h][1] else env[h][1]) for h in env}
